@@ -1,6 +1,6 @@
 (* C15 — property theorems only.  Proofs are one `exact`. *)
 From Coq Require Import List ZArith.
-From RD Require Import C15.Prim C15.PL C15.Qos C15.Model C15.Proofs.
+From RD Require Import C15.Prim C15.PL C15.Qos C15.Disc C15.Model C15.Proofs.
 Import ListNotations.
 Open Scope Z_scope.
 
@@ -36,6 +36,17 @@ Theorem C15_unknown_skipped_qos : forall e q extra ps',
   decode_qos e (enc_pl e ps') = Ok q.
 Proof. exact unknown_skipped_qos. Qed.
 Print Assumptions C15_unknown_skipped_qos.
+
+(* ---- SpdpDiscoveredParticipantData ------------------------------------------------------- *)
+Theorem C15_roundtrip_spdp : forall e v, spdp_ok v -> decode_spdp e (encode_spdp e v) = Ok v.
+Proof. exact roundtrip_spdp. Qed.
+Print Assumptions C15_roundtrip_spdp.
+
+Theorem C15_unknown_skipped_spdp : forall e v extra ps',
+  spdp_ok v -> Forall (foreign spdp_pids) extra -> Merge (spdp_to_params e v) extra ps' ->
+  decode_spdp e (enc_pl e ps') = Ok v.
+Proof. exact unknown_skipped_spdp. Qed.
+Print Assumptions C15_unknown_skipped_spdp.
 
 (* ---- defaults ---------------------------------------------------------------------------- *)
 (* whatever bytes were decoded: every field whose parameter is absent from the wire has its default *)
@@ -73,3 +84,17 @@ Example qos_foreign :
   decode_qos BE (enc_pl BE (insert_all [(1%nat, (32768, [1;2;3]))] (qos_to_params BE qos_full))) = Ok qos_full.
 Proof. vm_compute. reflexivity. Qed.
 Example foreign_ok : foreign_okb KQos (32768, [1;2;3]) = true. Proof. reflexivity. Qed.
+
+Example spdp_ex : spdp :=
+  Build_spdp (2, 3) (1, 18) false [1;2;3;4;5;6;7;8;9;10;11;12;0;0;1;193]
+    [LUdpV4 127 0 0 1 7410; LUdpV6 [32;1;13;184;0;0;0;0;0;0;0;0;0;0;0;1] 7411 0 0] [] [LInvalid; LOther 8 70000 (zeros 16)] []
+    402656319 (Some (20, 0)) 0 None (Some [104; 195; 169]).
+Example spdp_ex_ok : spdp_okb spdp_ex = true. Proof. reflexivity. Qed.
+Example spdp_ex_roundtrip : decode_spdp BE (encode_spdp BE spdp_ex) = Ok spdp_ex.
+Proof. vm_compute. reflexivity. Qed.
+(* a participant announcing only the mandatory parameters gets the RTPS defaults *)
+Example spdp_minimal_defaults :
+  decode_spdp LE (enc_pl LE [(21, [2;3]); (22, [1;18]); (80, [1;2;3;4;5;6;7;8;9;10;11;12;0;0;1;193]);
+                            (88, [63;12;0;24])])
+  = Ok (Build_spdp (2, 3) (1, 18) false [1;2;3;4;5;6;7;8;9;10;11;12;0;0;1;193] [] [] [] [] 402656319 None 0 None None).
+Proof. vm_compute. reflexivity. Qed.
